@@ -406,6 +406,9 @@ func (vr *variableResolver) resolve(ctx *ExecutionContext) (*Value, error) {
 		// into the execution context (e.g. in a for-loop)
 		if current.Type() == typeOfValuePtr {
 			tmpValue := current.Interface().(*Value)
+			if tmpValue == nil {
+				return AsValue(nil), nil
+			}
 			current = tmpValue.val
 			isSafe = tmpValue.safe
 		}
@@ -526,6 +529,8 @@ func (vr *variableResolver) resolve(ctx *ExecutionContext) (*Value, error) {
 
 			if rv.Type() != typeOfValuePtr {
 				current = reflect.ValueOf(rv.Interface())
+			} else if rv.IsNil() {
+				return AsValue(nil), nil
 			} else {
 				// Return the function call value
 				current = rv.Interface().(*Value).val
